@@ -171,6 +171,18 @@ func (p *Packer) Pack(src string, w io.Writer) (*Meta, error) {
 		return nil, fmt.Errorf("failed to read absolute path for source: %w", err)
 	}
 
+	// The source can still be a symlink at this point: the caller spelled a
+	// linked directory with a trailing separator (which the Lstat above
+	// looks through), or the link led to another link. filepath.Walk does
+	// not descend into a root that is a symlink, so the archive would
+	// silently come out empty.
+	if info, err := os.Lstat(src); err == nil && info.Mode()&os.ModeSymlink != 0 {
+		src, err = filepath.EvalSymlinks(src)
+		if err != nil {
+			return nil, err
+		}
+	}
+
 	// Walk the tree of files.
 	err = filepath.Walk(src, p.packWalkFn(src, src, src, tarW, meta, ignoreRules, nil))
 	if err != nil {
